@@ -214,7 +214,7 @@ pub assume_specification [crate::vm::environment::EnvironmentMap::new] () -> (r:
                 {'anchor': 'lambda.emit(OpCode::Jmp);', 'where': 'before', 'text': 'let ghost l2 = *lambda;'},
                 {'anchor': 'let jmp_operand = lambda.bc.len();', 'where': 'before', 'text': 'let ghost l2b = *lambda;'},
                 {'anchor': '*lambda.bc.get_mut(jnt_operand).unwrap()', 'where': 'before', 'text': 'let ghost l2c = *lambda;'},
-                {'anchor': 'match alternate {', 'where': 'before', 'text': 'let ghost l3 = *lambda;'},
+                {'anchor': ['match alternate {', 'if let Some(alternate) = alternate {'], 'where': 'before', 'text': 'let ghost l3 = *lambda;'},
                 {'anchor': '*lambda.bc.get_mut(jmp_operand).unwrap()', 'where': 'before', 'text': '''let ghost l4 = *lambda;
                     proof {
                         let l0 = *old(lambda);
